@@ -329,11 +329,28 @@ class SourceScope(Scope):
             except ImportError:
                 continue
 
-            for name in iterkeys(module._attrs):
-                if not name.startswith('_'):
-                    flow.add_name(ImportedName(name, loc, declared_at, mname, name, True))
+            for name in star_import_names(module):
+                flow.add_name(ImportedName(name, loc, declared_at, mname, name, True))
 
         self._star_imports[:] = []
+
+
+def star_import_names(module):
+    # type: (t.Any) -> list[str]
+    """Names 'from module import *' binds: every public name, plus what the
+    module lists in __all__ (this is how names with a leading underscore get exported).
+    __all__ is often extended at run time, so it is not used to leave names out"""
+    attrs = module._attrs
+    names = [n for n in iterkeys(attrs) if not n.startswith('_')]
+    listed = getattr(getattr(module, 'module', None), '__all__', None)
+    if listed is None:
+        value = getattr(attrs.get('__all__'), 'value_node', None)
+        listed = [getattr(e, 'value', None) for e in getattr(value, 'elts', None) or []]
+
+    for n in listed:
+        if isinstance(n, str) and n.startswith('_') and n in attrs:
+            names.append(n)
+    return names
 
 
 def get_first_body_node_loc(body):
